@@ -288,8 +288,13 @@ def known_findings():
         return json.load(fh)
 
 
+def out_root():
+    """evidence and replays of runs against a scratch copy of the repository (VERIF_REPO) are kept apart"""
+    return VERIF if os.path.realpath(REPO) == "/repo" else os.path.join(tempfile.gettempdir(), "verif-alt-" + os.path.basename(REPO))
+
+
 def write_replay(pid, seed, payload):
-    d = os.path.join(VERIF, "replays")
+    d = os.path.join(out_root(), "replays")
     os.makedirs(d, exist_ok=True)
     path = os.path.join(d, f"{pid}-{seed}.json")
     with open(path, "w") as fh:
@@ -298,7 +303,7 @@ def write_replay(pid, seed, payload):
 
 
 def write_evidence(pid, tier, seed, coverage, assumptions, wall, violations):
-    d = os.path.join(VERIF, "evidence")
+    d = os.path.join(out_root(), "evidence")
     os.makedirs(d, exist_ok=True)
     ev = {"property_id": pid, "tier": tier, "seed": seed, "level": "proof", "coverage": coverage,
           "assumptions": assumptions, "wall_s": round(wall, 2), "violations": violations}
